@@ -18,8 +18,8 @@ import (
 type RTok struct {
 	Kind       parser.TokenKind
 	Start, End int
-	Val        string   // identifiers, quoted identifiers, strings
-	Num        *Number  // numbers: exact value of the lexeme
+	Val        string  // identifiers, quoted identifiers, strings
+	Num        *Number // numbers: exact value of the lexeme
 }
 
 func isAl(c byte) bool  { return c >= 'a' && c <= 'z' || c >= 'A' && c <= 'Z' }
